@@ -27,13 +27,14 @@ type Cfg struct {
 	Mode      uint32
 	FileName  string
 	Custom    bool // custom format name instead of the default
+	HugeDur   int  `json:",omitempty"` // with MaxDurMs == 0: 1 = MaxDuration is the largest Duration ("never"), 2 = 250 years; such a limit is never reached
 	DevShm    bool `json:",omitempty"` // put the log directory under /dev/shm (a real directory whose path starts with /dev/) when that is writable
 	FmtKind   int  `json:",omitempty"` // which custom name: 0 "custom-format", 1 "JSON", 2 "text ", 3 " json", 4 "Custom-Format"
 	NestedDir bool
 }
 
 func (c Cfg) String() string {
-	return fmt.Sprintf("cfg{MaxBytes=%d MaxFiles=%d MaxDuration=%dms TSOnly=%v Mode=%#o File=%q custom=%v(%d) nested=%v devShm=%v}", c.MaxBytes, c.MaxFiles, c.MaxDurMs, c.TSOnly, c.Mode, c.FileName, c.Custom, c.FmtKind, c.NestedDir, c.DevShm)
+	return fmt.Sprintf("cfg{MaxBytes=%d MaxFiles=%d MaxDuration=%dms TSOnly=%v Mode=%#o File=%q custom=%v(%d) nested=%v devShm=%v hugeDuration=%d}", c.MaxBytes, c.MaxFiles, c.MaxDurMs, c.TSOnly, c.Mode, c.FileName, c.Custom, c.FmtKind, c.NestedDir, c.DevShm, c.HugeDur)
 }
 
 type Op struct {
@@ -135,6 +136,11 @@ func NewRunner(root string, c Cfg) *Runner {
 	r.format = eventlogger.JSONFormat
 	s := &eventlogger.FileSink{Path: dir, FileName: c.FileName, Mode: os.FileMode(c.Mode), MaxBytes: c.MaxBytes, MaxFiles: c.MaxFiles,
 		MaxDuration: time.Duration(c.MaxDurMs) * time.Millisecond, TimestampOnlyOnRotate: c.TSOnly}
+	if c.MaxDurMs == 0 && c.HugeDur == 1 {
+		s.MaxDuration = time.Duration(math.MaxInt64)
+	} else if c.MaxDurMs == 0 && c.HugeDur == 2 {
+		s.MaxDuration = 250 * 365 * 24 * time.Hour
+	}
 	if c.Custom {
 		// format names are exact strings: some are equal to a common name only after trimming or case folding
 		r.format = [...]string{"custom-format", "JSON", "text ", " json", "Custom-Format"}[c.FmtKind%5]
@@ -149,7 +155,9 @@ func NewRunner(root string, c Cfg) *Runner {
 	return r
 }
 
-func (r *Runner) rotateEnabled() bool { return r.Cfg.MaxBytes > 0 || r.Cfg.MaxDurMs != 0 }
+func (r *Runner) rotateEnabled() bool {
+	return r.Cfg.MaxBytes > 0 || r.Cfg.MaxDurMs != 0 || r.Cfg.HugeDur != 0 // a huge MaxDuration is a configured limit too (it is just never reached)
+}
 
 // patternTS returns the timestamp of a rotated-file name, ok=false otherwise.
 func (r *Runner) patternTS(name string) (int64, bool) {
